@@ -13,6 +13,7 @@ type propFn func(*Check)
 
 var propTable = map[string]propFn{
 	"C01": checkC01,
+	"C02": checkC02,
 	"C03": checkC03,
 	"C04": checkC04,
 	"C05": checkC05,
